@@ -7,7 +7,8 @@ FILES = ['theories/Base.v', 'theories/gen/Codec.v', 'theories/gen/Tp21Gen.v', 't
          'theories/Model21.v', 'theories/Replay21.v', 'theories/Sae21.v', 'proofs/CodecProofs.v', 'proofs/Flat.v', 'proofs/Tp21Seg.v',
          'proofs/Tp21Resp.v', 'proofs/Tp21Orig.v', 'proofs/WireProofs.v', 'proofs/PacingProofs.v',
          'theories/gen/Tp22Gen.v', 'theories/Model22.v', 'theories/Replay22.v', 'proofs/TimeoutProofs.v', 'proofs/MpgProofs.v', 'proofs/PoolProofs.v',
-         'proofs/Tp22Proofs.v', 'proofs/Tp22Resp.v', 'proofs/Tp22Orig.v']
+         'proofs/Tp22Proofs.v', 'proofs/Tp22Resp.v', 'proofs/Tp22Orig.v',
+         'proofs/RobustProofs.v', 'proofs/NoOversleep.v', 'proofs/NoOversleep22.v']
 runner = tpconf.runner
 oracle = tpconf.oracle_c09
 
